@@ -251,6 +251,12 @@ def drive(tier):
         a_ = bytes(r.randrange(0, 3)) + gen.rbytes(r, r.randrange(0, 5))
         b_ = bytes(r.randrange(0, 3)) + (a_[-2:] if r.random() < 0.3 else gen.rbytes(r, r.randrange(0, 5)))
         R.add("x.cmpbe", {"a": b2l(a_), "b": b2l(b_)}, {"c": int(CompareBigEndian(a_, b_))})
+    # ---- CTxOut.is_valid: value in the money range and a script that parses
+    from bitcoin.core import CTxOut as _TO
+    for v_ in (0, 1, -1, 21 * 10 ** 14, 21 * 10 ** 14 + 1, 2 ** 63 - 1, -2 ** 63, 5 * 10 ** 8):
+        for sc_ in (b"", b"\x51", b"\x02\x01", b"\x4c", b"\x76\xa9\x14" + bytes(20) + b"\x88\xac", b"\x4e\x01\x00\x00"):
+            o_ = _TO(v_, CScript(sc_))
+            R.add("x.outvalid", {"txout": gen.proj_txout(o_)}, {"valid": bool(o_.is_valid())})
     # ---- address conveniences
     from bitcoin.wallet import CBitcoinAddress as _A, P2SHBitcoinAddress as _P2SH, P2PKHBitcoinAddress as _P2PKH
     CLS = {"P2PKHBitcoinAddress": "P2PKH", "P2SHBitcoinAddress": "P2SH", "P2WPKHBitcoinAddress": "P2WPKH", "P2WSHBitcoinAddress": "P2WSH"}
